@@ -91,7 +91,8 @@ CLAIMED = {
         technique="TLA+ spec Signing.tla (build/throttle/stamp/sign/transmit/verify pipeline over character classes MEASURED from "
                   "urlencode and aiohttp) model-checked with TLC; every value shape concretised through every authenticated entry "
                   "point of the real clients into a loopback server that verifies HMAC-SHA256 over the raw bytes; requests judged by "
-                  "TLC (ApiTrace.tla / SigningProps.tla)",
+                  "TLC (ApiTrace.tla / SigningProps.tla); connection loss after receipt (resend designs none/resign pass, reuse must fail) "
+                  "in the model and injected by the loopback server; concurrent request bursts",
         text="Model-checked rule (signed bytes = transmitted bytes for every endpoint placement and every class string up to length "
              "2-3, timestamp taken after the limiter wait, nonces unique) + one implementation request per concretised value and "
              "entry point (36 Binance + 11 Bitstamp calls) verified by an independent server implementation + seeded random client ids.",
@@ -102,7 +103,8 @@ CLAIMED = {
         engine="WireFormat",
         technique="TLA+ spec WireFormat.tla (fixed-point rule on digit sequences, timestamp limbs, status alphabets, endpoint routing "
                   "table) evaluated by TLC on one implementation record per (digits, exponent) x order entry point received by a "
-                  "loopback server and on wrapper objects built from generated payloads (ApiTrace.tla)",
+                  "loopback server and on wrapper objects built from generated payloads (ApiTrace.tla): 62 decimal fields, timestamps "
+                  "through every wrapper, statuses, exact parameter-name sets, totals accumulated over trades / transactions",
         text="Every decimal of the grid {1,10,85,100,123,1050} x 10^-14..14 (within 1e-12..1e12) through every order entry point of both "
              "exchanges: the received text must be plain and numerically equal; unset options omitted; operation/pair/type select the "
              "documented path, side and symbol; ms/us timestamps 2010-2100 and every listed status decode as the rule says.",
@@ -132,14 +134,17 @@ CLAIMED = {
         design_ref="DESIGN.md §5 C19"),
     "C20": dict(
         engine="TokenBucket",
-        technique="TLA+ spec (TokenBucket.tla) model-checked with TLC; every terminal TLC behaviour replayed into the real "
-                  "TokenBucketLimiter; TLC trace validation (TokenBucketTrace.tla) of recorded implementation traces",
+        technique="TLA+ spec (TokenBucket.tla) model-checked with TLC; the window bound additionally proved with TLAPS for all "
+                  "parameters, times and histories (specs/proofs/TokenBucketProof.tla, same Consume operator); every terminal TLC "
+                  "behaviour replayed into the real TokenBucketLimiter; TLC trace validation (TokenBucketTrace.tla) of recorded "
+                  "implementation traces",
         text="Exhaustive TLC model checking of the limiter state machine over all arrival sequences within small bounds "
              "(window bound, burst-exact wait, refill cap), bound to the code in both directions: all terminal behaviours "
              "are replayed on the real limiter under a substituted clock and seeded random implementation traces "
              "(fractional rates, long idle gaps, overload) are judged step by step by TLC against the same operators.",
-        note="Trusted: TLC, the harness' clock substitution and float->grid projection (relative tolerance 1e-6). "
-             "Small-scope exhaustiveness only; random traces extend beyond the bounds without completeness.",
+        note="Trusted: TLC, tlapm and its back ends, the harness' clock substitution and float->grid projection (relative tolerance "
+             "1e-6). The TLAPS theorem is about the model (unbounded); the code is bound to the model by exact per-step conformance "
+             "(Step_Consume) on replayed and random traces, which is sampling beyond the MC bounds.",
         design_ref="DESIGN.md §5 C20"),
 }
 
